@@ -4,6 +4,7 @@ import common
 from common import show_floats, show_ints
 import tprog, gen_dag, gen_ops
 
+tprog.SPELLINGS = True
 tprog.LAYOUTS = True      # leaves are handed over in C / Fortran / strided / negative-stride / offset / transposed layouts
 PROP = 'C01'
 LEAN_TARGETS = ['Props.C01']
@@ -65,7 +66,7 @@ def cases(rng, tier):
     out = []
     per = 14 if tier == 'quick' else 400
     for op in gen_ops.OPS_BASIC:
-        for k in range(per * (3 if op == 'slice' else 1)):      # the index-expression space is the largest
+        for k in range(per * (3 if op in ('slice', 'max', 'min') else 1)):      # the index-expression space is the largest; max / min have tie and dim=None branches
             malformed = rng.chance(0.08)
             try:
                 out.append(finish(build(rng, op, malformed), rng))
@@ -127,7 +128,22 @@ def oracle(c):
     # total derivative = sum over outputs of <out_k, g_k>
     import props.c03 as c03
     if c['op'] in ('max', 'min') and len(set(c['leaves'][0][1])) != len(c['leaves'][0][1]):
-        return None     # tie: not differentiable there; the model comparison decides
+        # ties: not differentiable there. What every valid subgradient satisfies: nothing off the arg-extremum set of each
+        # reduced fibre, and the entries of a fibre sum to its upstream gradient
+        if grads[0] is None or not c['leaves'][0][2]:
+            return None
+        x = np.array(c['leaves'][0][1], dtype=np.float64).reshape(c['leaves'][0][0])
+        dim = None if c['args'][0] == '~' else int(c['args'][0])
+        ext = (x.max if c['op'] == 'max' else x.min)(axis=dim, keepdims=True)
+        on = (x == ext)
+        G = np.array(c['gs'][0][1], dtype=np.float64).reshape(ext.shape)
+        gr = grads[0]
+        if np.any(np.abs(gr[~on]) > 1e-12):
+            return {'key': dict(key, cls='tie-off-support'), 'case': cc, 'what': f"{c['op']} at a tie: gradient {gr.ravel().tolist()} is non-zero off the arg-extremum positions"}
+        tot = (gr * on).sum(axis=dim, keepdims=True)
+        if not np.allclose(tot, G, rtol=1e-9, atol=1e-12):
+            return {'key': dict(key, cls='tie-mass'), 'case': cc, 'what': f"{c['op']}(dim={dim}) at a tie: the gradient entries of a reduced fibre sum to {tot.ravel().tolist()}, the upstream gradient is {G.ravel().tolist()}"}
+        return None
     # finite differences against the summed upstream gradients
     num = {}
     leaves = [list(lf[1]) for lf in c['leaves']]
